@@ -241,5 +241,7 @@ def check(repo, rep, tier):
     r_state(repo, rep)
     m = ParseModel(repo)
     rc.r_cache(m, rep, 'R11.5')
+    rc.r_priority(m, rep, 'R11.5')
+    rc.r_ids_not_ordered(m, rep, 'R11.5')
     rc.r_search_loop(m, rep, 'R11.4')
     rep.floor('push sites (search loop analysed)', len(m.sites), 5)
